@@ -102,6 +102,9 @@ class SArray:
     def min(s, axis=None): return numpy.minimum.reduce(s, axis=axis)
     def nonzero(s): return numpy.nonzero(s)
     def conjugate(s): return numpy.conjugate(s)
+    def searchsorted(s, v, side='left', sorter=None): return numpy.searchsorted(s, v, side=side, sorter=sorter)
+    def argmin(s, axis=None): raise Unsupported('argmin')
+    def tolist(s): return s.a.tolist()
 
     # -- indexing
     def _index(s, item):
@@ -133,6 +136,7 @@ class SArray:
         if isinstance(value, SArray): v = value.astype(s.dtype, copy=False).a if value.kind != s.kind else value.a
         elif isinstance(value, Sym): v = s._elem(value)
         else: v = SArray.wrap(value).astype(s.dtype, copy=False).a
+        if isinstance(v, numpy.ndarray) and v.ndim == 0: v = v[()]
         if not sym:
             s.a[item] = v
             return
@@ -453,10 +457,25 @@ def _structural(fn, kindrule=None):
     return h
 
 for _fn in (numpy.transpose, numpy.moveaxis, numpy.swapaxes, numpy.reshape, numpy.ravel, numpy.expand_dims, numpy.squeeze,
-            numpy.broadcast_to, numpy.repeat, numpy.concatenate, numpy.stack, numpy.diagonal, numpy.tile, numpy.flip, numpy.roll,
+            numpy.broadcast_to, numpy.concatenate, numpy.stack, numpy.diagonal, numpy.tile, numpy.flip, numpy.roll,
             numpy.einsum, numpy.dot, numpy.tensordot, numpy.trace, numpy.copy, numpy.atleast_1d, numpy.broadcast_arrays, numpy.diff):
     HANDLED[_fn] = _structural(_fn)
 
+@handles(numpy.ix_)
+def _ix(*args):
+    conc = []
+    for a in args:
+        a = SArray.wrap(a)
+        if not all(is_concrete(x) for x in a.a.flat): raise Unsupported('ix_ symbolic')
+        conc.append(a.a.astype(NPDT[a.kind]))
+    return numpy.ix_(*conc)
+@handles(numpy.repeat)
+def _repeat(a, repeats, axis=None):
+    a = SArray.wrap(a)
+    if isinstance(repeats, (SArray, Sym)):
+        r = SArray.wrap(repeats)
+        repeats = numpy.array([operator.index(x) for x in r.a.flat], dtype=int).reshape(r.shape) if r.ndim else operator.index(r.a[()])
+    return SArray(numpy.repeat(a.a, repeats, axis), a.kind)
 @handles(numpy.sum)
 def _sum(a, axis=None, dtype=None, out=None, keepdims=False, **kw):
     a = SArray.wrap(a)
@@ -629,7 +648,13 @@ def _isfinite(a): return SArray.wrap(numpy.ones(a.shape, bool))
 
 # ---------------------------------------------------------------- numpy proxy module
 
+class _NDArrayMeta(type):
+    def __instancecheck__(cls, obj): return isinstance(obj, (numpy.ndarray, SArray))
+class _NDArray(metaclass=_NDArrayMeta):
+    def __new__(cls, *args, **kw): return numpy.ndarray(*args, **kw)
+
 class NPProxy(pytypes.ModuleType):
+    ndarray = _NDArray
     def __init__(self):
         super().__init__('symnp')
     def __getattr__(self, n): return getattr(numpy, n)
@@ -646,6 +671,10 @@ class NPProxy(pytypes.ModuleType):
     def array(self, a, dtype=None, copy=True, **kw):
         r = self.asarray(a, dtype)
         return r.copy() if copy and r is a else r
+    def full(self, shape, v, dtype=None, **kw):
+        if isinstance(v, (SArray, Sym)):
+            r = SArray.wrap(numpy.zeros(_shape_tuple(shape), NPDT[SArray.wrap(v).kind])); r.fill(SArray.wrap(v).a[()]); return r
+        return SArray.wrap(numpy.full(_shape_tuple(shape), v, dtype))
     def cumsum(self, a, *args, **kw): return numpy.cumsum(_from_seq(a), *args, **kw)
     def stack(self, a, *args, **kw): return numpy.stack([_from_seq(x) for x in a], *args, **kw)
     def concatenate(self, a, *args, **kw): return numpy.concatenate([_from_seq(x) for x in a], *args, **kw)
